@@ -18,6 +18,8 @@ func main() {
 		extract(os.Args[2], os.Args[3])
 	case "dump": // prints the normalised bodies the fact table is written against (maintenance aid)
 		dump(os.Args[2])
+	case "child": // capped child process of the `xrstr` probe
+		child(os.Args[2:])
 	case "corr":
 		corr.Main(spec(), os.Args[2:])
 	default:
